@@ -182,10 +182,10 @@ class SimLoop(base_events.BaseEventLoop):
 
     def _on_exception(self, loop, context):
         exc = context.get("exception")
+        # NOT logged into the digest: "exception was never retrieved" reports
+        # fire when the garbage collector gets to the task, which is not a
+        # simulated event.  Oracles read this list after Env has run gc.collect().
         self.exceptions.append((context.get("message"), exc))
-        self.world.log(self.name, "loop-exception", context.get("message"),
-                       type(exc).__name__ if exc is not None else None,
-                       str(exc) if exc is not None else None)
 
     # -- the OS interface of BaseEventLoop -------------------------------------
     def _process_events(self, event_list):
